@@ -225,7 +225,18 @@ func TestVerifC02Node(t *testing.T) {
 							}
 						}(a.payload)
 					} else {
-						P[a.from].Send(me, vMsgRPC(msgs[a.payload]))
+						// one RPC may carry the same message more than once (the node looks at all messages of an RPC
+						// before it handles any of them)
+						rpc := vMsgRPC(msgs[a.payload])
+						if c.Chance(0.25) {
+							for k, K := 0, c.Range(1, 2); k < K; k++ {
+								rpc.Publish = append(rpc.Publish, msgs[a.payload])
+								payloads[a.payload]++
+							}
+							hist[len(hist)-1] += fmt.Sprintf("(x%d in one RPC)", len(rpc.Publish))
+							classes["same_rpc_duplicates"]++
+						}
+						P[a.from].Send(me, rpc)
 					}
 				}
 				vSettle(0)
